@@ -599,6 +599,8 @@ def call_method(ex, st, node, recv, name, args, kwargs):
             return str_encode(ex, st, node, recv, args, kwargs), None
         if name == 'isdigit':
             return VBool(z3.InRe(t, z3.Plus(z3.Range('0', '9')))), None         # ASCII digits; Unicode digits noted as assumption
+        if name == 'isascii' and not args:
+            return VBool(z3.InRe(t, z3.Star(z3.Range(chr(0), chr(127))))), None
         if name == 'title':
             f = z3.Function('str_title', z3.StringSort(), z3.StringSort())
             r = f(t); st.assume(z3.Length(r) == z3.Length(t)); return VStr(r, recv.ty), None
